@@ -130,8 +130,10 @@ def gen_project_files():
         txt = open(os.path.join(COQ, rel)).read()
         ms = re.findall(r"\(\*\s*DISPATCH:\s*(\d+)\s*=>\s*(.+?)\s*\*\)", txt)
         if ms:
-            imports.append(rel[:-2].replace("/", "."))
-            entries += [(int(a), b) for a, b in ms]
+            mod = rel[:-2].replace("/", ".")
+            imports.append(mod)
+            # qualified: two model files may define entry points of the same name
+            entries += [(int(a), mod + "." + b) for a, b in ms]
     ids = [a for a, _ in entries]
     assert len(ids) == len(set(ids)), "duplicate DISPATCH id: %r" % sorted(ids)
     disp = ("(* GENERATED by harness/runner.py from the DISPATCH markers of the model files. *)\n"
